@@ -23,6 +23,8 @@
 //	g.VerifCheckVersion() error                    // the real, unexported g.checkVersion()
 //	g.VerifQueryMultiURR(m, ps) (map, error)       // the real, unexported g.queryMultiURR()
 //	g.VerifGtpuAddr() *net.UDPAddr                 // where g.link.WriteTo sends from
+//	g.VerifPerio() *perio.Server                   // the real periodic server; perio.(*Server).VerifTick(period) injects a ticker
+//	                                               // expiry through the server's own event channel (FIFO after pending Add/Del)
 //
 //	k.Requests() []SimRequest      copy of the log: every request received, in order of arrival
 //	k.Take() []SimRequest          same, and clears the log
@@ -39,7 +41,8 @@
 //	    RELATED_TO_PDR list computed from the stored PDRs of the same session (ENOENT if absent); NLM_F_DUMP
 //	    on a GET answers all rules + NLMSG_DONE.
 //	k.SetReports(occasion, seid, urrid, []SimReport)   usage reports answered for that URR on
-//	    SimOnQuery (GET_REPORT and GET_MULTI_REPORTS), SimOnUpdate (ADD_URR+REPLACE), SimOnRemove (DEL_URR)
+//	    SimOnQuery (GET_REPORT and GET_MULTI_REPORTS), SimOnUpdate (ADD_URR+REPLACE), SimOnRemove (DEL_URR; answered
+//	    with an empty report message when nothing is scripted, as go-gtp5gnl's RemoveURROID needs one)
 //	    SimReport{URRID, SEID, Trigger, SEQN, QueryRef, Start, End (ns), VolMask (bit i => counter i present),
 //	              TotVol, UlVol, DlVol, TotPkt, UlPkt, DlPkt}
 //	k.ReportHook func(req *SimRequest, occ SimOccasion, oids []SimOID) []SimReport   overrides SetReports when non-nil
@@ -787,9 +790,9 @@ func (k *SimKernel) process(req *SimRequest) ([]byte, syscall.Errno) {
 			}
 			var out []byte
 			if kind == SimURR {
-				if rs := k.reportsFor(req, SimOnRemove, req.OIDs); len(rs) > 0 {
-					out = k.genlMsg(req.NlType, 0, req.Seq, req.Cmd, rs)
-				}
+				// gtp5g always answers DEL_URR with a report message (go-gtp5gnl's RemoveURROID fails without one);
+				// with nothing scripted the message carries no UR attribute
+				out = k.genlMsg(req.NlType, 0, req.Seq, req.Cmd, k.reportsFor(req, SimOnRemove, req.OIDs))
 			}
 			delete(k.rules[kind], oid)
 			return out, 0
@@ -938,6 +941,9 @@ func (g *Gtp5g) VerifCheckVersion() error { return g.checkVersion() }
 func (g *Gtp5g) VerifQueryMultiURR(m map[uint64][]uint32, ps bool) (map[uint64][]report.USAReport, error) {
 	return g.queryMultiURR(m, ps)
 }
+
+// VerifPerio: the real periodic-report server of this driver (see perio/verif_hooks.go for VerifTick).
+func (g *Gtp5g) VerifPerio() *perio.Server { return g.ps }
 
 func (g *Gtp5g) VerifGtpuAddr() *net.UDPAddr { return g.link.conn.LocalAddr().(*net.UDPAddr) }
 
